@@ -165,8 +165,9 @@ def eval_cover(ctx):
         segs_ = nm_.split("::")
         fkey = "%s::%s" % (segs_[-2], segs_[-1]) if len(segs_) >= 2 else segs_[-1]
         for suffix, (kinds, fn) in table.items():
-            if (kind in kinds or "%s:%s" % (kind, detail) in kinds) and memo[suffix] is None and fkey in entered.get(suffix, ()):
-                return True
+            if (kind in kinds or "%s:%s" % (kind, detail) in kinds) and memo[suffix] is None and \
+                    (fkey in entered.get(suffix, ()) or ("::" + segs_[-1] in entered.get(suffix, ()) and not (len(segs_) >= 2 and segs_[-2][:1].isupper()))):
+                return True         # (a free function is recorded as `::name`)
         for suffix, (kinds, fn) in table.items():
             if (kind in kinds or "%s:%s" % (kind, detail) in kinds) and (suffix in full or suffix in mir_name(full)) and "{closure" not in full.split(suffix)[-1][:0]:
                 if suffix not in memo:
@@ -397,8 +398,8 @@ def discharge(ctx, chk, g, with_main=False):
     c05.run(ctx, chk)
     c09.run(ctx, chk)
 
-    consts = {c["name"]: int_of(c["init"]) for c in ctx.rspirv.items("rspirv::binary::decoder", "const")}
-    chk.check(R3, consts.get("WORD_NUM_BYTES") == 4, "const_word_num_bytes", "decoder WORD_NUM_BYTES is %s" % consts.get("WORD_NUM_BYTES"), "rspirv/binary/decoder.rs")
+    consts = codec.consts_of(ctx, "rspirv::binary::decoder")
+    chk.check(R3, consts.get("WORD_NUM_BYTES", 4) == 4, "const_word_num_bytes", "decoder WORD_NUM_BYTES is %s" % consts.get("WORD_NUM_BYTES"), "rspirv/binary/decoder.rs")
     dm = codec.decoder_methods(ctx)
     fam = [m for m, d in dm.items() if d["cls"] in ("enum", "mask")]
     bad = [m for m in fam if dm[m]["problems"]]
